@@ -126,6 +126,9 @@ def run(ctx):
             ev += bytes_events(s, [-1, 1, 0, 2, 3, 4, 5, L], [NONE, 8 * L - 3, 8 * L, 8 * L + 5])
     for s0 in (b'\x00\x00\x0a\x0b', b'\x00\x00\x00\x00\x01\x02', b'\x0a\x0b\x00\x00', b'\x01\x02\x00\x00\x03\x04', b'\x00\x00\x00\x07\x00\x00', b'\x00' * 6, b'\x00\x00\x00\x00\x00\x00\x00\x09'):
         ev += bytes_events(s0, [-1, 1, 0, 2, 3, 4, len(s0)], [NONE, 8 * len(s0) - 9, 8 * len(s0)])       # all-zero groups at the start / middle / end of a mixed-endian string
+    for L in (16, 24, 32):
+        s0 = bytes(rnd.randrange(256) for _ in range(L))
+        ev += bytes_events(s0, [-1, 1, 0, 2, 4, 8, L // 2, L], [NONE, 8 * L - 5, 8 * L])                 # k-byte groups with k = 4, 8, 12, 16
     for e in ev: ctx.mark(('b', str(e['s']), e['order'], e['size']))
     ctx.exhaustive_subspaces.append('every 1-byte string and 256 class pairs of 2-byte strings under bitorder -1,+1,0,2(,3) and several sizes')
     validate_events(ctx, ev, 'bytes constructors')
@@ -147,9 +150,9 @@ def run(ctx):
     ctx.exhaustive_subspaces.append('every three-step load() history over 7 strings (empty, zero bytes, 1..4 bytes) on one object')
     # unpack o pack for every byte count 1..40 (every Q/L/H/B decomposition), both endiannesses
     ev = []
-    for nb in range(0, 41):
+    for nb in list(range(0, 41)) + [48, 56, 64, 71, 72, 73, 80, 96, 100, 128, 136, 200, 256]:
         for k in range(6 if big else 3):
-            s = bytes(rnd.randrange(256) for _ in range(nb)) if k else bytes(range(1, nb + 1))
+            s = bytes(rnd.randrange(256) for _ in range(nb)) if k else bytes((i + 1) & 255 for i in range(nb))
             ev += unpack_events(s)
             a = bits_of(int.from_bytes(s, 'little'), 8 * nb)
             from crysp.bits import Bits, pack, unpack
@@ -157,7 +160,7 @@ def run(ctx):
             for be in (False, True):
                 ev.append(rec(dict(op='rt_pack', a=a, be=be), lambda be=be: Bits(*unpack(pack(b, '>L' if be else '<L'), bigend=be)), [b], alias_check=False))
             ctx.mark(('u', nb, k))
-    ctx.exhaustive_subspaces.append('unpack and unpack(pack()) for every byte count 0..40, both endiannesses')
+    ctx.exhaustive_subspaces.append('unpack and unpack(pack()) for every byte count 0..40 and 13 larger ones up to 256, both endiannesses')
     validate_events(ctx, ev, 'pack/unpack 1..40 bytes')
     # wide samples
     ev = []
